@@ -47,6 +47,25 @@ pub fn policy_matches<S: Src, const F1: usize, const F2: usize, const K: usize, 
     std::mem::forget(entry);
 }
 
+/// C12/C15: the policy's answer depends on the KEY only: for a deletion marker (no content) it is the same as for a record.
+pub fn policy_matches_marker<S: Src, const F1: usize, const K: usize>(s: &mut S) {
+    let (e1, b1, f1) = any_filter::<S, F1>(s);
+    let key: [u8; K] = s.arr();
+    let nothing_except = s.bool();
+    let filters = vec![f1];
+    let policy = if nothing_except { DownloadPolicy::NothingExcept(filters) } else { DownloadPolicy::EverythingExcept(filters) };
+    let id = RecordIdentifier::new(NamespaceId::from(&[1u8; 32]), AuthorId::from(&[2u8; 32]), key);
+    let entry = Entry::new(id, Record::empty(s.u64()));
+    let m1 = if e1 { key[..] == b1[..] } else { key.starts_with(&b1) };
+    let want = if nothing_except { m1 } else { !m1 };
+    let got = policy.matches(&entry);
+    cv!(s, m1, "policy_matches_marker: the filter matches the marker's key");
+    cv!(s, !m1, "policy_matches_marker: the filter does not match");
+    ck!(s, got == want, "a deletion marker is selected exactly when its key is (the flag of an event is the policy's answer for the key, content or not)");
+    std::mem::forget(policy);
+    std::mem::forget(entry);
+}
+
 /// C15/C09: filters survive their textual form unchanged (`from_str(to_string(f)) == f`), for
 /// UTF-8 and non-UTF-8 (hex) bytes.
 pub fn filter_text_roundtrip<S: Src, const F: usize>(s: &mut S) {
